@@ -126,6 +126,14 @@ CHECKS = {
             "BaseException, None results) in histories that contain earlier failures and failures handled by formulas. The "
             "traceback must equal the reference's unwound chain with exact line numbers, get_error() the original exception.",
             "line numbers refer to the generated source; after-return failures are listed with line 0 as documented"),
+    "C18": ("exploration",
+            "stateful property-based testing (Hypothesis): IOSpec life-cycle histories with the invariant 'model.iospecs == spec-carrying values bound to >=1 reference' evaluated by walking all references, io-manager inspection, and write/read of live specs",
+            "Histories of new_pandas (csv, excel sheets; fresh, taken, cells and space names; claimed paths), further bindings, "
+            "rebinding to other and to the same value, overriding a derived reference and deleting the base one, deletions, "
+            "update_pandas, base changes, space deletion and model close over one or two models. After every step the specs of "
+            "each model must be exactly those of values still referenced, the io manager must hold nothing else, locations must be "
+            "unique, rejected creations must leave nothing, and live values must survive write/read.",
+            "identity of values as documented; pandas csv/excel only (ModuleData and ExcelRange share the same bookkeeping)"),
     "C19": ("exploration",
             "stateful property-based testing (Hypothesis-generated registry histories) against a dict reference model plus isolation invariants over public descriptions",
             "Histories of new_model / write+read_model / rename (with and without rename_old, onto free, taken, already-suffixed "
